@@ -18,7 +18,7 @@ from . import solve
 from .frontend import Program, FuncInfo
 from .values import (
     forall,
-    ANY, BOOL, FUNC, INT, NONE, STR, XINT, LIST, OPT, REF, SET, TUPLE, Ty, Val, VNONE,
+    ANY, BOOL, FUNC, INT, NONE, STR, XINT, LIST, OPT, REF, SET, TUPLE, UNION, Ty, Val, VNONE,
     Heap, fresh, from_int, to_int, vbool, vint, vlist, vref, vxint, I, B, CALLREF,
 )
 
@@ -284,6 +284,13 @@ class Closure:
         self.qualname = qualname
 
 
+class FStr:
+    """structure of an f-string value: [("lit", text) | ("val", Val, format spec)]"""
+
+    def __init__(self, parts):
+        self.parts = parts
+
+
 class AbstractCallable:
     """A callable value whose behaviour is only known through an abstract contract."""
 
@@ -393,8 +400,8 @@ class Engine:
                 return r if r.kind in ("ref", "list", "any", "func", "callref") else OPT(r)
             if l.kind == "callref" or r.kind == "callref":
                 return CALLREF()
-            if l.kind == "int" and r.kind == "list":
-                return ANY
+            if l.kind == "int" and r.kind in ("list", "tuple"):
+                return UNION(l, r)
             return l
         if isinstance(node, ast.Attribute):
             return ANY
@@ -432,6 +439,9 @@ class Engine:
             return Val(ty, fresh(name + "_cls"))
         if k == "tuple":
             return Val(ty, [self.fresh_val(t, f"{name}_{i}", st) for i, t in enumerate(ty.items)])
+        if k == "union":
+            return Val(ty, (fresh(name + "_isfirst", B), self.fresh_val(ty.items[0], name + "_a", st),
+                            self.fresh_val(ty.items[1], name + "_b", st)))
         if k == "set":
             return Val(ty, fresh(name, z3.ArraySort(I, B)))
         if k == "str":
@@ -489,6 +499,7 @@ class Engine:
         self.cur = contract
         self.cur_fi = fi
         self.loop_ordinal = 0
+        self.loop_ids = {}
         self.check_decorators(contract, fi)
         start = len(self.obligations)
         h0 = Heap(tag="0")
@@ -537,6 +548,11 @@ class Engine:
                 res = f.value if f.status == "ret" and f.value is not None else VNONE
                 if res.ty.kind == "cacheval" and contract.ret is not None:
                     res = from_int(contract.ret, res.t[1])   # a cached entry returned as the method's result
+                if res.ty.kind == "opt" and contract.ret is not None and contract.ret.kind not in ("opt", "none"):
+                    # an Optional value returned where the contract promises a value
+                    self.oblige(f, "returns-a-value-not-None", z3.Not(res.aux), "post")
+                    f.assume(z3.Not(res.aux))
+                    res = res.t
                 contract.ghost(Ctx(self, h0, f.heap, args, res), f)
                 hfin = f.heap
                 c = Ctx(self, h0, hfin, args, res)
@@ -600,7 +616,7 @@ class Engine:
             if is_lit_true(allowed):
                 continue
             goal = z3.Implies(
-                z3.And(x > 0, x < h0.alloc, z3.Not(allowed)), z3.Select(a1, x) == z3.Select(a0, x)
+                z3.And(x >= 0, x < h0.alloc, z3.Not(allowed)), z3.Select(a1, x) == z3.Select(a0, x)
             )
             self.oblige(st, f"{prefix}:field:{name}", goal, "frame")
         for region in ("c", "o"):
@@ -827,26 +843,45 @@ class Engine:
                     branches = []
             for taken, bst in branches:
                 if narrow:
-                    nm, when_true_inner = narrow
-                    if taken == when_true_inner:
-                        bst.env[nm] = bst.env[nm].t  # unwrap optional
+                    nm, by_branch = narrow
+                    if by_branch.get(taken) is not None:
+                        bst.env[nm] = by_branch[taken]  # unwrap optional / pick the union alternative
                 body = s.body if taken else s.orelse
                 out.extend(self.exec_block(body, bst))
         return out
 
     def narrowing(self, test, st):
-        """`x is None` / `x is not None` on an optional local: which branch sees the
-        inner value.  Returns (name, branch_truth_value_where_not_none)."""
+        """`x is None` / `x is not None` on an optional local, `isinstance(x, T)` / `not isinstance(x, T)`
+        on a local of union type: what the local is in each branch.
+        Returns (name, {branch truth value: narrowed Val})."""
         if (isinstance(test, ast.Compare) and len(test.ops) == 1 and isinstance(test.left, ast.Name)
                 and isinstance(test.comparators[0], ast.Constant) and test.comparators[0].value is None):
             nm = test.left.id
             v = st.env.get(nm)
             if v is not None and v.ty.kind == "opt":
                 if isinstance(test.ops[0], ast.Is):
-                    return (nm, False)
+                    return (nm, {False: v.t})
                 if isinstance(test.ops[0], ast.IsNot):
-                    return (nm, True)
+                    return (nm, {True: v.t})
+        neg = False
+        if isinstance(test, ast.UnaryOp) and isinstance(test.op, ast.Not):
+            neg, test = True, test.operand
+        if (isinstance(test, ast.Call) and isinstance(test.func, ast.Name) and test.func.id == "isinstance"
+                and len(test.args) == 2 and isinstance(test.args[0], ast.Name) and isinstance(test.args[1], ast.Name)):
+            nm = test.args[0].id
+            v = st.env.get(nm)
+            if v is not None and v.ty.kind == "union":
+                first = self.union_alt_matches(v.ty.items[0], test.args[1].id)
+                second = self.union_alt_matches(v.ty.items[1], test.args[1].id)
+                if first != second:
+                    yes, no = (v.t[1], v.t[2]) if first else (v.t[2], v.t[1])
+                    return (nm, {True: no, False: yes} if neg else {True: yes, False: no})
         return None
+
+    @staticmethod
+    def union_alt_matches(ty, cname):
+        return {"int": ty.kind in ("int", "bool"), "list": ty.kind == "list", "tuple": ty.kind == "tuple",
+                "bool": ty.kind == "bool"}.get(cname, False)
 
     def st_Assign(self, s, st):
         out = []
@@ -943,6 +978,19 @@ class Engine:
                     raise OutsideSubset(
                         f"region mismatch: a list of region {v.ty.region!r} is stored in field {cls}.{attr} "
                         f"declared in region {fty.region!r} (line {getattr(node, 'lineno', 0)})")
+        if not attr.startswith("$") and self.field_ty(cls, attr).kind == "tuple":
+            # a field holding a pair of integers: one heap field per component (`attr#0`, `attr#1`)
+            fty = self.field_ty(cls, attr)
+            if v.ty.kind != "tuple" or len(v.t) != len(fty.items):
+                raise OutsideSubset(f"{cls}.{attr} assigned a {v.ty}, declared {fty}")
+            for k, item in enumerate(v.t):
+                st.heap = st.heap.put(f"{attr}#{k}", obj.t, to_int(item))
+            return [st]
+        if not attr.startswith("$") and self.field_ty(cls, attr).kind == "opt":
+            # Optional[int] field: the value and an `is None` flag
+            v = self.coerce(v, self.field_ty(cls, attr))
+            st.heap = st.heap.put(attr, obj.t, to_int(v.t)).put(f"{attr}#none", obj.t, z3.If(v.aux, z3.IntVal(1), z3.IntVal(0)))
+            return [st]
         if not attr.startswith("$") and self.field_ty(cls, attr).kind == "cachedict":
             if v.ty.kind != "emptydict":
                 raise OutsideSubset(f"{cls}.{attr} assigned something that is not a fresh empty dict")
@@ -1040,8 +1088,14 @@ class Engine:
 
     # ------------------------------------------------------------------- loops
     def loop_spec(self, s):
-        ordinal = self.loop_ordinal
-        self.loop_ordinal += 1
+        # a loop keeps the ordinal of its first encounter: several paths may reach the same loop statement
+        known = self.loop_ids.get(id(s))
+        if known is not None:
+            ordinal = known
+        else:
+            ordinal = max([self.loop_ordinal] + [v + 1 for v in self.loop_ids.values()])
+            self.loop_ids[id(s)] = ordinal
+        self.loop_ordinal = max(self.loop_ordinal, ordinal + 1)
         spec = self.cur.loops.get(ordinal)
         if isinstance(s, ast.For):
             header = f"for {ast.unparse(s.target)} in {ast.unparse(s.iter)}"
@@ -1285,7 +1339,21 @@ class Engine:
         raise OutsideSubset(f"constant {v!r}")
 
     def ev_JoinedStr(self, e, st):
-        return [(st, Val(STR, None))]
+        if not getattr(self.cur, "structured_fstrings", False):
+            return [(st, Val(STR, None))]
+        # contracts that speak about a formatted string see its structure: the literal pieces and the
+        # values formatted into it (conversion / format spec kept as text)
+        parts = []
+        for v in e.values:
+            if isinstance(v, ast.Constant):
+                parts.append(("lit", v.value))
+            else:
+                res = self.ev(v.value, st)
+                if len(res) != 1 or res[0][0].status != "run":
+                    raise OutsideSubset("formatted value forks or raises inside an f-string")
+                spec = ast.unparse(v.format_spec) if v.format_spec is not None else ""
+                parts.append(("val", res[0][1], spec))
+        return [(st, Val(STR, FStr(parts)))]
 
     def ev_Name(self, e, st):
         if e.id in st.env:
@@ -1398,6 +1466,10 @@ class Engine:
             return [(st, Val(FUNC, ("field", attr, obj)))]
         if ty.kind == "cachedict":
             return [(st, Val(ty, obj.t))]
+        if ty.kind == "tuple":
+            return [(st, Val(ty, [from_int(it, st.heap.get(f"{attr}#{k}", obj.t)) for k, it in enumerate(ty.items)]))]
+        if ty.kind == "opt":
+            return [(st, Val(ty, from_int(ty.arg, st.heap.get(attr, obj.t)), st.heap.get(f"{attr}#none", obj.t) != 0))]
         ok = obj.t != 0
         okst, bad = self.split(st, ok, "AttributeError", node)
         out = [(b, None) for b in bad]
@@ -1670,6 +1742,15 @@ class Engine:
                 out.append((s, None))
                 continue
             acc = []
+            # ordering comparisons of an Optional[int]: TypeError when it is None, else its value
+            if any(isinstance(op, (ast.Lt, ast.LtE, ast.Gt, ast.GtE)) for op in e.ops):
+                for k, v in enumerate(vs):
+                    if s is not None and v.ty.kind == "opt" and v.t.ty.kind in ("int", "bool"):
+                        s, bad = self.split(s, z3.Not(v.aux), "TypeError", e)
+                        out.extend((b_, None) for b_ in bad)
+                        vs[k] = v.t
+                if s is None:
+                    continue
             for k, op in enumerate(e.ops):
                 acc.append(self.compare(op, vs[k], vs[k + 1], s, e))
             out.append((s, vbool(z3.And(acc) if len(acc) > 1 else acc[0])))
@@ -1808,17 +1889,31 @@ class Engine:
                 out.append((s, None))
                 continue
             b = self.truthy(c, s)
-            if self.simple_expr([e.body, e.orelse]):
+            narrow = self.narrowing(e.test, s)
+            if narrow is None and self.simple_expr([e.body, e.orelse]):
                 for s2, (x, y) in self.ev_many([e.body, e.orelse], s):
                     out.append((s2, self.ite_val(b, x, y)))
                 continue
+
+            def branch(state, taken, expr):
+                if narrow is None or narrow[1].get(taken) is None:
+                    return self.ev(expr, state)
+                nm, by_branch = narrow
+                saved = state.env[nm]
+                state.env[nm] = by_branch[taken]
+                res = self.ev(expr, state)
+                for s3, _ in res:
+                    if s3.status == "run":
+                        s3.env[nm] = saved
+                return res
+
             if self.feasible(s, b):
                 s1 = s.copy()
                 s1.assume(b)
-                out.extend(self.ev(e.body, s1))
+                out.extend(branch(s1, True, e.body))
             if self.feasible(s, z3.Not(b)):
                 s.assume(z3.Not(b))
-                out.extend(self.ev(e.orelse, s))
+                out.extend(branch(s, False, e.orelse))
         return out
 
     def ev_Lambda(self, e, st):
@@ -1998,7 +2093,12 @@ class Engine:
             if s.status != "run":
                 out.append((s, None, None))
                 continue
-            pos = vs[: len(e.args)]
+            pos = []
+            for v in vs[: len(e.args)]:
+                if v.ty.kind == "starred" and v.t.ty.kind == "tuple":
+                    pos.extend(v.t.t)   # f(*pair): the items of a tuple value
+                else:
+                    pos.append(v)
             kw = {}
             for k, v in zip(e.keywords, vs[len(e.args):]):
                 if k.arg is None:
@@ -2046,6 +2146,13 @@ class Engine:
             return Val(ty, z3.IntVal(0))
         if ty.kind == "callref" and v.ty.kind == "func":
             return Val(ty, z3.IntVal(id(v.t) % 1000003 + 1))
+        if ty.kind == "union" and v.ty.kind != "union":
+            a, b = ty.items
+            if v.ty.kind == a.kind or (a.kind == "int" and v.ty.kind == "bool"):
+                return Val(ty, (z3.BoolVal(True), v, self.fresh_val(b, "unused_alt")))
+            if v.ty.kind == b.kind:
+                return Val(ty, (z3.BoolVal(False), self.fresh_val(a, "unused_alt"), v))
+            raise OutsideSubset(f"a {v.ty} passed where {ty} is expected")
         return v
 
     def call_function(self, fi: FuncInfo, pre_args, e, st):
@@ -2074,6 +2181,13 @@ class Engine:
 
     def apply_contract(self, con: Contract, fi: FuncInfo, pos, kw, st, node):
         bound = self.bind_params(fi, pos, kw, st, con)
+        sel = getattr(con, "select_variant", None)
+        if sel is not None:
+            # a function with a union-typed parameter may have one contract per argument shape
+            other = sel(bound)
+            if other is not None:
+                con = self.reg[other]
+                bound = self.bind_params(fi, pos, kw, st, con)
         return self.apply_bound(con, bound, st, node)
 
     def apply_bound(self, con: Contract, bound, st: State, node, extra=None):
@@ -2145,6 +2259,9 @@ class Engine:
             obj = vref(cls, r)
             # ghost: the dynamic class of the new object
             s.heap = s.heap.put("$type", r, z3.IntVal(self.class_id(cls)))
+            hook = getattr(con, "ghost_new", None)
+            if hook is not None:
+                hook(self, s, obj, pos, kw)   # ghost definitions attached to the new object
             for s2, _ in self.apply_contract(con, fi, [obj] + pos, kw, s, e):
                 out.append((s2, obj if s2.status == "run" else None))
         return out
